@@ -50,25 +50,27 @@ def check(ctx, rep):
     clears = [(bb, t) for g, bb, t in removers if g is rs and last_seg(t['callee']) == 'clear']
     ok = False
     if len(runs) == 1 and len(removes) == 1 and vidx:
+        # finite-domain evaluation: run_task's result is fixed to each TaskState in turn; with it, the slab removal is
+        # unavoidable before the next queue read / return for Completed and Cancelled and unreachable for the others
+        # (whatever form the test takes: a match, `matches!`, `==` / `!=` against the variants, an early `continue`)
         rb, rtm = runs[0]
-        sw = None
-        for sb, st in rs.terms('switch'):
-            if any(o.kind == 'rvalue' and o.stmt['rv']['k'] == 'discr' and o.stmt['rv']['a']['l'] == rtm['d']['l'] for o in origins(rs, st['a'])):
-                sw = (sb, st)
-        if sw:
-            sb, st = sw
-            def target(v):
-                for val, b in st['arms']:
-                    if val == v:
-                        return b
-                return st['otherwise']
-            keep_edges = [(sb, target(vidx[n])) for n in ('Missing', 'Suspended')]
-            go_edges = [(sb, target(vidx[n])) for n in ('Completed', 'Cancelled')]
-            rm = removes[0][0]
-            ok = rm not in rs.reachable([0], removed_edges=go_edges) and all(rm not in rs.reachable([e[1]], removed_blocks=[sb]) for e in keep_edges) \
-                and all(rm in rs.reachable([e[1]]) for e in go_edges)
-            # removed id is the id that was run
-            same_id = any(o.kind in ('call', 'arg', 'rvalue') or True for o in origins(rs, removes[0][1]['args'][1]))
+        rm = removes[0][0]
+        adt_path = adt['path']
+        ok = True
+        for name, vi in vidx.items():
+            def cv(b, t, _vi=vi):
+                if b == rb:
+                    return ('V', adt_path, _vi, 'unit')
+                return None
+            if name in ('Completed', 'Cancelled'):
+                # with the removal taken away nothing after the run can be reached except the removal's own block
+                after = rs.reachable_ps([rb], removed_blocks=[rm], call_values=cv) - {rb}
+                nxt = set(rs.return_blocks()) | set(b2 for b2, _ in c01.queue_reads(rs, 'ready_queue'))
+                if (after & nxt) or rm not in rs.reachable_ps([rb], call_values=cv):
+                    ok = False
+            else:
+                if rm in rs.reachable_ps([rb], call_values=cv):
+                    ok = False
     rep.expect('R07.b', ok, 'remove-arm', 'Slab::remove is reachable exactly on the Completed and Cancelled results of run_task',
                'run_until_settled removes a task on a result other than Completed|Cancelled, or keeps a finished one')
     under_abort = bool(clears) and all(any(bb in rs.reachable([c06.bool_edges(rs, *w)[1][1]]) for w in
